@@ -90,7 +90,7 @@ func checkAliased(a aliased) *mc.Failure {
 }
 
 func checkSlices(t trace, lhs, rhs []int) *mc.Failure {
-	f := mc.Guard(func() *mc.Failure { return checkSlices1(t, lhs, rhs) })
+	f := mc.GuardT("editscript", t, func() *mc.Failure { return checkSlices1(t, lhs, rhs) })
 	if f != nil && len(f.Msg) > 6 && f.Msg[:6] == "panic:" {
 		f.Msg = fmt.Sprintf("EditScript(%v,%v): %s", lhs, rhs, f.Msg)
 	}
